@@ -1,12 +1,14 @@
 \* C05 thorough: root + 4 changes, timestamps in 1..2, at most one guest-authored change.
 CONSTANTS
   Atomic = TRUE
+  SingleInPlace = FALSE
   DropDetached = TRUE
   Namespace = {1}
   M = 4
   MaxTs = 2
   Classes = {"ok", "guest"}
   MaxBad = 1
+  FullCauses = 1
   AllowDetached = FALSE
   Emit = TRUE
   EmitMod = 8
